@@ -182,11 +182,13 @@ def _gen_grid_case(rng):
     nu, nv = rng.range(1, 6), rng.range(1, 6)
     ox, oy, oz = rng.range(-4, 4), rng.range(-4, 4), rng.range(-2, 2)
     vals = [rng.range(-40, 40) for _ in range(nu * nv)]
+    pre = rng.weighted([("none", 30), ("text", 35), ("comment", 35)])   # a non-array child in front of the numeric data
     if rng.chance(45):
         nu, nv = rng.range(2, 7), rng.range(2, 7)
         vals = [rng.range(-40, 40) for _ in range(nu * nv)]
         # rotation atan(3/4), cell size 5: centre (i, j) sits at o + (4i - 3j + 1/2, 3i + 4j + 7/2): odd in half units
-        case = {"kind": "grid", "rot": "345", "nu": nu, "nv": nv, "du": 5, "dv": 5, "origin": [ox, oy, oz], "vals": vals}
+        case = {"kind": "grid", "rot": "345", "nu": nu, "nv": nv, "du": 5, "dv": 5, "origin": [ox, oy, oz], "vals": vals,
+                "pre": pre, "vals2": [rng.range(-40, 40) for _ in range(nu * nv)]}
         cx = [2 * ox + 8 * i - 6 * j + 1 for j in range(nv) for i in range(nu)]
         cy = [2 * oy + 6 * i + 8 * j + 7 for j in range(nv) for i in range(nu)]
         def bound(cs, thin):
@@ -227,7 +229,8 @@ def _gen_grid_case(rng):
         box2.append([2 * oz - rng.range(0, 2), 2 * oz + rng.range(0, 2)])
     if rng.chance(8):  # disjoint
         box2[0] = [2 * ox + 2 * nu * du + 2, 2 * ox + 2 * nu * du + 4]
-    return {"kind": "grid", "rot": "0", "nu": nu, "nv": nv, "du": du, "dv": dv, "origin": [ox, oy, oz], "box_half": box2, "vals": vals}
+    return {"kind": "grid", "rot": "0", "nu": nu, "nv": nv, "du": du, "dv": dv, "origin": [ox, oy, oz], "box_half": box2, "vals": vals,
+            "pre": pre, "vals2": [rng.range(-40, 40) for _ in range(nu * nv)]}
 
 
 def _centres2(case):
@@ -262,9 +265,112 @@ def _index_of_origin(case, o2):
     return (u0, v0) if u0 >= 0 and v0 >= 0 else None
 
 
+def _gen_fmesh_case(rng):
+    """non-lattice float coordinates a few ulps around the faces of a box whose opposite corner is far away, and
+    half-infinite boxes; exact rational arithmetic decides (oracle) / an order-preserving integer scaling (model)"""
+    import math
+
+    ndim = 2 if rng.chance(40) else 3
+    box = []
+    for _ in range(ndim):
+        near = rng.choice([0.3, 0.7, 12.1, 1.1, 2.675, 0.001, 5.0, 0.1 + 0.2])
+        far = rng.choice([100.0, 250.0, 1000.0, 1e6, 3.0])
+        r = rng.below(100)
+        if r < 70:
+            lo, hi = -far, near        # the face under test is the upper one
+        elif r < 85:
+            lo, hi = near, far         # ... or the lower one
+        elif r < 93:
+            lo, hi = "-inf", near      # half-infinite extents
+        else:
+            lo, hi = near - 1.0, "inf"
+        box.append([lo, hi])
+
+    def fin(x, default):
+        return default if isinstance(x, str) else x
+
+    nv = rng.range(2, 8)
+    verts = []
+    for _ in range(nv):
+        p = []
+        for k in range(3):
+            if k < ndim:
+                lo, hi = fin(box[k][0], -1e3), fin(box[k][1], 1e3)
+            else:
+                lo, hi = -1.0, 1.0
+            face = hi if rng.chance(70) else lo
+            c = rng.below(100)
+            if c < 18:
+                x = face
+            elif c < 40:
+                x = math.nextafter(face, math.inf)
+            elif c < 55:
+                x = math.nextafter(face, -math.inf)
+            elif c < 65:
+                x = math.nextafter(math.nextafter(face, math.inf), math.inf)
+            elif c < 75:
+                x = face * (1 + 2.0 ** -51)
+            elif c < 90:
+                x = 0.0 if lo <= 0.0 <= hi else (lo + hi) / 2
+            else:
+                x = hi + 1.0
+            p.append(float(x))
+        verts.append(p)
+    cls = "Curve" if rng.chance(45) else "Points"
+    cells = []
+    if cls == "Curve":
+        cells = sorted([rng.below(nv), rng.below(nv)] for _ in range(rng.range(1, 5)))
+    kids = [{"id": 1, "assoc": "VERTEX", "kind": "float", "vals": G._gen_vals(rng, "float", nv)}] if rng.chance(60) else []
+    return {"kind": "fmesh", "cls": cls, "verts": verts, "cells": cells, "kids": kids, "box": box, "inverse": rng.chance(35)}
+
+
 def generate(rng, tier):
     n = 320 if tier == "quick" else 6000
-    return [(_gen_grid_case(rng) if rng.chance(25) else _gen_mesh_case(rng)) for _ in range(n)]
+    out = []
+    for _ in range(n):
+        r = rng.below(100)
+        out.append(_gen_grid_case(rng) if r < 30 else _gen_fmesh_case(rng) if r < 45 else _gen_mesh_case(rng))
+    return out
+
+
+# ----------------------------------------------------------------------------- float cases -> equivalent integer cases
+def _f(x):
+    return float("inf") if x == "inf" else float("-inf") if x == "-inf" else float(x)
+
+
+def _scale_map(case):
+    """order-preserving map of every finite float of the case to an integer (exact: floats are dyadic rationals);
+    +-inf go to values beyond every finite one, which preserves every comparison the code makes"""
+    import math
+    from fractions import Fraction
+
+    fins = {float(x) for p in case["verts"] for x in p} | {_f(x) for b in case["box"] for x in b if math.isfinite(_f(x))}
+    den = 1
+    for x in fins:
+        den = max(den, Fraction(x).denominator)
+    table = {x: int(Fraction(x) * den) for x in fins}
+    big = max([abs(v) for v in table.values()] + [0]) + 1
+    table[float("inf")] = big
+    table[float("-inf")] = -big
+    return table
+
+
+def _scaled(case, obs=None):
+    """the fmesh case (and its observation) rewritten as an integer mesh case"""
+    t = _scale_map(case)
+
+    def pt(p):
+        return [t[float(x)] if float(x) in t else {"float": repr(x)} for x in p]
+
+    c2 = dict(case, kind="mesh", verts=[pt(p) for p in case["verts"]], box=[[t[_f(lo)], t[_f(hi)]] for lo, hi in case["box"]])
+    if obs is None or "mask" not in obs:
+        return c2, obs
+    o2 = dict(obs)
+    for key in ("init", "after"):
+        o2[key] = dict(obs[key], verts=[pt(p) for p in obs[key]["verts"]])
+    if "snap" in obs["copy"]:
+        o2["copy"] = {"snap": dict(obs["copy"]["snap"], verts=[pt(p) for p in obs["copy"]["snap"]["verts"]])}
+    return c2, o2
 
 
 # ----------------------------------------------------------------------------- implementation driver
@@ -292,6 +398,7 @@ def drive_one(case, work):
     try:
         if case["kind"] == "grid":
             return _drive_grid(case, ws)
+        snap = _snap_raw if case["kind"] == "fmesh" else G._snap
         kw = {"vertices": np.array(case["verts"], dtype=float).reshape(-1, 3), "name": "obj"}
         if case["cls"] != "Points":
             kw["cells"] = np.array(case["cells"], dtype="int32")
@@ -303,8 +410,8 @@ def drive_one(case, work):
             else:
                 spec["type"] = {"float": "float", "int": "integer", "bool": "boolean"}[kd["kind"]]
             obj.add_data({f"d{kd['id']}": spec})
-        init = G._snap(obj)
-        ext = np.array(case["box"], dtype=float).T  # shape (2, N)
+        init = snap(obj)
+        ext = np.array([[_f(lo), _f(hi)] for lo, hi in case["box"]], dtype=float).T  # shape (2, N)
         inv = bool(case["inverse"])
         out = {"init": init}
         out["mask"] = _mask_obs(lambda: obj.mask_by_extent(ext, inverse=inv))
@@ -316,10 +423,10 @@ def drive_one(case, work):
                 out["dmasks"].append({"name": ch.name, "assoc": ch.association.name, **_mask_obs(lambda ch=ch: ch.mask_by_extent(ext, inverse=inv))})
         try:
             cp = obj.copy_from_extent(ext, inverse=inv)
-            out["copy"] = {"none": True} if cp is None else {"snap": G._snap(cp)}
+            out["copy"] = {"none": True} if cp is None else {"snap": snap(cp)}
         except Exception as e:  # noqa: BLE001
             out["copy"] = {"error": type(e).__name__}
-        out["after"] = G._snap(obj)
+        out["after"] = snap(obj)
         return out
     finally:
         try:
@@ -328,6 +435,16 @@ def drive_one(case, work):
             pass
         if os.path.exists(path):
             os.remove(path)
+
+
+def _snap_raw(obj):
+    """like c07._snap but with the vertices as the raw floats (exact through JSON)"""
+    import numpy as np
+
+    s = G._snap(obj)
+    v = obj.vertices
+    s["verts"] = [] if v is None else [[float(x) for x in p] for p in np.asarray(v).tolist()]
+    return s
 
 
 def _r2(x):
@@ -345,7 +462,13 @@ def _drive_grid(case, ws):
     rot = math.degrees(math.atan2(3, 4)) if case.get("rot", "0") == "345" else 0.0
     g = Grid2D.create(ws, origin=[float(x) for x in case["origin"]], u_cell_size=float(case["du"]), v_cell_size=float(case["dv"]),
                       u_count=case["nu"], v_count=case["nv"], rotation=rot, dip=0.0, name="grid")
+    if case.get("pre") == "text":
+        g.add_data({"note": {"values": "a note about this grid", "association": "OBJECT"}})
+    elif case.get("pre") == "comment":
+        g.add_comment("surveyed in 2019", author="qa")
     g.add_data({"d1": {"values": np.array(case["vals"], dtype=float), "association": "CELL"}})
+    if case.get("vals2") is not None:
+        g.add_data({"d2": {"values": np.array(case["vals2"], dtype=float), "association": "CELL"}})
     ext = np.array(case["box_half"], dtype=float).T / 2.0
     cent = np.asarray(g.centroids)
     out = {"centroids2": [[_r2(x) for x in p] for p in cent.tolist()]}
@@ -357,11 +480,14 @@ def _drive_grid(case, ws):
     if cp is None:
         out["copy"] = {"none": True}
         return out
-    vals = None
+    vals = vals2 = None
     for ch in cp.children:
         if getattr(ch, "name", None) == "d1":
             vals = G._canon_vals(ch.values)
-    out["copy"] = {"nu": int(cp.u_count), "nv": int(cp.v_count), "origin2": [_r2(cp.origin[a]) for a in ("x", "y", "z")],
+        if getattr(ch, "name", None) == "d2":
+            vals2 = G._canon_vals(ch.values)
+    out["child_order"] = [getattr(ch, "name", "?") for ch in cp.children]
+    out["copy"] = {"vals2": vals2, "nu": int(cp.u_count), "nv": int(cp.v_count), "origin2": [_r2(cp.origin[a]) for a in ("x", "y", "z")],
                    "du": float(cp.u_cell_size), "dv": float(cp.v_cell_size), "rotation": float(cp.rotation), "vals": vals,
                    "src_rotation": float(g.rotation)}
     return out
@@ -398,6 +524,15 @@ def _sel_rows(case, cent2):
 
 
 def case_term(case, obs):
+    try:
+        return _case_term(case, obs)
+    except Exception:  # noqa: BLE001 - an observation the term builder cannot print is a disagreement, not a crash
+        return "false"
+
+
+def _case_term(case, obs):
+    if case["kind"] == "fmesh":
+        case, obs = _scaled(case, obs)
     if case["kind"] == "grid":
         if "copy" not in obs:
             return "false"
@@ -417,10 +552,15 @@ def case_term(case, obs):
         uv = _index_of_origin(case, cp["origin2"])
         if uv is None or cp["vals"] is None or any(isinstance(x, dict) for x in cp["vals"]):
             return "false"
+        second = "true"
+        if case.get("vals2") is not None:
+            if cp.get("vals2") is None or any(isinstance(x, dict) for x in cp["vals2"]):
+                return "false"
+            second = "vals_eqb (grid_copy_values %s g %s) %s" % (sel, G._vals_term(case["vals2"]), G._vals_term(cp["vals2"]))
         return ("match %s with None => false | Some g => "
                 "Nat.eqb (sg_u0 g) %s && Nat.eqb (sg_v0 g) %s && Nat.eqb (sg_nu g) %s && Nat.eqb (sg_nv g) %s && "
-                "vals_eqb (grid_copy_values %s g %s) %s end") % (
-            gs, cnat(uv[0]), cnat(uv[1]), cnat(cp["nu"]), cnat(cp["nv"]), sel, G._vals_term(case["vals"]), G._vals_term(cp["vals"]))
+                "vals_eqb (grid_copy_values %s g %s) %s && %s end") % (
+            gs, cnat(uv[0]), cnat(uv[1]), cnat(cp["nu"]), cnat(cp["nv"]), sel, G._vals_term(case["vals"]), G._vals_term(cp["vals"]), second)
     if "mask" not in obs:
         return "false"
     # the object as created must be the object asked for (values padded by add_data are not generated here)
@@ -455,6 +595,8 @@ def case_term(case, obs):
 def model_term(case):
     if case["kind"] == "grid":
         return None
+    if case["kind"] == "fmesh":
+        case, _ = _scaled(case)
     o, e, i = _obj_term(case), _ext_term(case["box"]), cbool(case["inverse"])
     return f"(obj_mask {o} {e} {i}, copy_from_extent {o} {e} {i})"
 
@@ -483,6 +625,9 @@ def oracle(case, obs):
         return [{"key": "driver-crash", "what": obs["crash"][:300]}]
     if case["kind"] == "grid":
         return _oracle_grid(case, obs)
+    if case["kind"] == "fmesh":
+        # exact rational comparison: the scaling is fractions.Fraction(x) * (common power-of-two denominator)
+        case, obs = _scaled(case, obs)
     fails = []
     box = case["box"]
     if any(lo > hi for lo, hi in box):
@@ -581,14 +726,21 @@ def _oracle_grid(case, obs):
         key = "grid-subgrid-gap" if gap and got["nu"] == len(us) and got["nv"] == len(vs) else "grid-not-minimal"
         fails.append({"key": key, "what": f"sub-grid {got} != smallest sub-grid covering the selected cells {exp} (selected columns {us}, rows {vs})"})
         return fails
-    ev = [case["vals"][j * nu + i] if inside[j * nu + i] else None for j in range(v0, v1 + 1) for i in range(u0, u1 + 1)]
-    if cp["vals"] != ev:
-        fails.append({"key": "grid-values", "what": f"sub-grid values {cp['vals']} != expected {ev}"})
+    for name, src, got_v in (("d1", case["vals"], cp["vals"]), ("d2", case.get("vals2"), cp.get("vals2"))):
+        if src is None:
+            continue
+        ev = [src[j * nu + i] if inside[j * nu + i] else None for j in range(v0, v1 + 1) for i in range(u0, u1 + 1)]
+        if got_v != ev:
+            fails.append({"key": "grid-values", "what": f"sub-grid values of {name} {got_v} != expected {ev} (children {obs.get('child_order')})"})
+            break
     return fails
 
 
 # ----------------------------------------------------------------------------- evidence helpers
 def nontrivial(case, obs):
+    if case["kind"] == "fmesh":
+        m = obs.get("mask", {}).get("mask")
+        return bool(m) and any(m) and not all(m)
     if case["kind"] == "grid":
         cp = obs.get("copy", {})
         return "nu" in cp and cp["nu"] * cp["nv"] < case["nu"] * case["nv"]
@@ -600,7 +752,13 @@ def histogram(cases, obs):
     h = {"kind": {}, "cls": {}, "ndim": {}, "inverse": 0, "result": {}, "on_boundary": 0, "degenerate_box": 0, "inverted_box": 0}
     for c, o in zip(cases, obs):
         h["kind"][c["kind"]] = h["kind"].get(c["kind"], 0) + 1
+        if c["kind"] == "fmesh":
+            if any(isinstance(x, str) for b in c["box"] for x in b):
+                h["half_infinite_box"] = h.get("half_infinite_box", 0) + 1
+            c, o = _scaled(c, o)
         if c["kind"] == "grid":
+            h.setdefault("grid_pre_child", {})
+            h["grid_pre_child"][c.get("pre", "none")] = h["grid_pre_child"].get(c.get("pre", "none"), 0) + 1
             h.setdefault("grid_rotation", {})
             h["grid_rotation"][c.get("rot", "0")] = h["grid_rotation"].get(c.get("rot", "0"), 0) + 1
             cent = _centres2(c)
